@@ -77,12 +77,12 @@ class Addr:
                     diff = datetime.timedelta(seconds=0)
                 else:
                     diff = self.expires - self.created
-                self.expiry = self.map.scheduler.callLater(diff.seconds,
+                self.expiry = self.map.scheduler.callLater(diff.total_seconds(),
                                                            self._expire)
 
             else:
                 diff = self.expires - oldexpires
-                self.expiry.delay(diff.seconds)
+                self.expiry.delay(diff.total_seconds())
 
     def _expire(self):
         """
